@@ -1,8 +1,27 @@
 import Flatland.JsonUtil
+import Flatland.Path
+import Flatland.Spec.C13
+import Flatland.Run.C14
 open Lean Flatland.J
 namespace Flatland.Run.C13
+open Flatland.Path Flatland.Run.C14
 
-/-- JSON case in, JSON observation out (stub until the model of C13 is written). -/
-def run (_j : Json) : Except String Json := .error "model runner for C13 not implemented yet"
+/-- case: {"tree": node, "starts": [ids]}.  Observation: `fq_name()` of every element
+    (preorder) and `find(fq_name)` from every start, as labels. -/
+def run (j : Json) : Except String Json := do
+  let tj ← fld j "tree"
+  let root ← parseTree tj
+  let tbl ← idTable tj []
+  let starts ← (← afld j "starts").mapM (fun s => do posOf tbl (← nat s))
+  let fq := tbl.map (fun (p : Pos × Nat) => Json.arr #[ofNat p.2, encStr (fqName root p.1)])
+  let found := tbl.flatMap (fun (p : Pos × Nat) =>
+    starts.map (fun s =>
+      Json.arr #[ofNat p.2, idOf tbl s, resJson tbl (find root s (fqName root p.1) false true)]))
+  -- spec B: every element whose path the grammar can spell is found, alone, from every start
+  let specOk := tbl.all (fun (p : Pos × Nat) =>
+    !(Flatland.C13.Spec.addressable root p.1) ||
+      starts.all (fun s => Flatland.C13.Spec.isInverseAt root s p.1))
+  return obj [("fq", Json.arr fq.toArray), ("found", Json.arr found.toArray),
+    ("spec_agrees", Json.bool specOk)]
 
 end Flatland.Run.C13
